@@ -47,15 +47,16 @@ def case_from_cfg(rng: random.Random, cfg: gen.GenCfg) -> Dict[str, Any]:
     return {"ranks": [r.__dict__ for r in ranks]}
 
 
-def frame_rows(ta, rank: int, cols=("ts", "dur", "stream")) -> List[Dict[str, Any]]:
-    """Rows of the loaded frame of `rank`, as the analyzers see them, names decoded through the real symbol table."""
+def frame_rows(ta, rank: int, cols=("ts", "dur", "stream"), u: int = 1) -> List[Dict[str, Any]]:
+    """Rows of the loaded frame of `rank`, as the analyzers see them, names decoded through the real symbol table.  Times in ticks of
+    1/u microsecond (u > 1 for cases with fractional durations)."""
     df = ta.t.get_trace(rank)
     st = ta.t.symbol_table.get_sym_table()
     out = []
     for idx, row in zip(df.index.tolist(), df[list(cols) + ["name", "cat"]].itertuples(index=False)):
         d = {"id": int(idx)}
         for c, v in zip(cols, row):
-            d[c] = hta.ival(v)
+            d[c] = hta.ival(float(v) * u) if c in ("ts", "dur") else hta.ival(v)
         d["name"] = st[int(row[len(cols)])]
         d["cat"] = st[int(row[len(cols) + 1])]
         out.append(d)
